@@ -50,6 +50,9 @@ def dataset(kind, which):
 
 
 # recorded findings (known_findings.json): a crash is KNOWN only at the recorded site AND for the recorded kind of combination
+DIAGRAMS = {"against", "autocorr", "autocov", "bsdecomp", "change", "cond", "droc", "droc0", "discrimination", "economicvalue", "error",
+            "freq", "fss", "igncontrib", "invreliability", "marginal", "meteo", "murphy", "obsfcst", "performance", "pithist", "qq",
+            "reliability", "roc", "scatter", "spreadskill", "taylor", "timeseries"}        # Combos!DiagramNames (InvCounts: 28)
 KNOWN_CRASHES = {}   # every crash found so far has been repaired upstream (known_findings.json: fixed entries)
 
 
@@ -134,6 +137,9 @@ def run(ctx):
             buckets.setdefault((c["v"], c["t"], c["x"] in ("obs", "fcst")), []).append(c)
         per = max(1, 1100 // len(buckets))
         variants = [c for key in sorted(buckets) for c in rng.sample(buckets[key], min(len(buckets[key]), per))]
+        # every diagram with every option variant at least once (as a plot, without -x), whatever the sample holds
+        seen = set((c["m"], c["v"]) for c in variants)
+        variants += [c for c in res2.emitted if c["m"] in DIAGRAMS and c["x"] == "(default)" and c["t"] == "plot" and (c["m"], c["v"]) not in seen]
         kinds = ["full", "missing-slice", "single-leadtime", "netcdf-%"]
     else:
         kinds = ["full", "missing-slice", "single-time", "single-location", "single-leadtime", "netcdf-%", "netcdf-m/s", "netcdf-^oC"]
